@@ -173,10 +173,10 @@ func (lgtp2) Gen(rng *rand.Rand, tier string) []Case {
 				add("tag:residue-ies", "dec2:"+lnHex(a)+","+lnHex(g2Build(rng, 0x48, nil, 0, 0)))
 				add("tag:residue-after-error-ies", "dec2:"+lnHex(g2Build(rng, 0x48, append(ies(2), [3]int{87, 9, 3}), 0, 0))+","+lnHex(b))
 			}
-			// large packets: 65535 and more octets (the 16-bit offset wrap of the unrepaired code), all zero and with maximal IEs
-			if tier == "thorough" {
-				add("tag:large", "dec:"+lnHex(make([]byte, 65535)))
-				add("tag:large", "dec:"+lnHex(make([]byte, 65540)))
+			// large packets: 65535 and more octets (the 16-bit offset wrap of the unrepaired code)
+			if tier == "thorough" { // few large IEs: the model walks the packet once per IE
+				add("tag:large", "dec:"+lnHex(g2Build(rng, 0x48, [][3]int{{1, -1, 16000}, {2, -1, 16000}, {3, -1, 16000}, {4, -1, 17507}}, 0, 0)))
+				add("tag:large", "dec:"+lnHex(g2Build(rng, 0x40, [][3]int{{1, -1, 30000}, {2, -1, 35520}}, 0, 0)))
 			}
 			// the registered decoder decodeGTPv2 on valid, truncated and malformed input
 			for i := 0; i < 40; i++ {
